@@ -19,14 +19,20 @@ Proof.
   unfold durations. apply zrange_from_In. unfold Tmax in *. lia.
 Qed.
 
+(** the primitive conversion agrees bit for bit with [Base.f_of_Z] on every
+    integer the sweeps below convert *)
+Lemma f_of_N_agrees :
+  forallb (fun z => f_biteq (f_of_N z) (f_of_Z z)) (zrange_from 0 100002) = true.
+Proof. vm_compute. reflexivity. Qed.
+
 Definition f_eqlist (a b : list float) : bool :=
   sv_eqb (SL (map SF a)) (SL (map SF b)).
 
 Definition res_is (r : res (list float)) (l : list float) : bool :=
   match r with Ok x => f_eqlist x l | Err _ => false end.
 
-Definition tf (T : Z) : float := (f_of_Z T / f_1000)%float.
-Definition t_v2 (T : Z) : float := (one * f_of_Z T * f_1em3)%float.
+Definition tf (T : Z) : float := (f_of_N T / f_1000)%float.
+Definition t_v2 (T : Z) : float := (one * f_of_N T * f_1em3)%float.
 
 (** The relative time 1.0 is never mapped BELOW the legacy final time
     [T/1000]: V2 never produces a spurious extra evaluation time just before
@@ -111,7 +117,7 @@ Theorem final_label_is_one : forall T, 4 <= T <= Tmax ->
   exists l, eval_labels T [tf T] = [l]
             /\ PrimFloat.leb l one = true /\ PrimFloat.leb f_almost_one l = true.
 Proof.
-  intros T HT. pose proof (sweep_spec _ final_label_sweep T HT) as H. simpl in H.
+  intros T HT. pose proof (sweep_spec _ final_label_sweep T HT) as H. cbv beta in H.
   destruct (eval_labels T [tf T]) as [|l [|? ?]]; try discriminate.
   exists l. apply andb_true_iff in H. destruct H. auto.
 Qed.
@@ -136,7 +142,7 @@ Theorem fixed_eval_times_ok : forall T, 4 <= T <= Tmax ->
             /\ PrimFloat.eqb (last l zero) (tf T) = true
             /\ length l = 9%nat.
 Proof.
-  intros T HT. pose proof (sweep_spec _ fixed_eval_times_sweep T HT) as H. simpl in H.
+  intros T HT. pose proof (sweep_spec _ fixed_eval_times_sweep T HT) as H. cbv beta in H.
   destruct (set_evaluation_times one T _) as [l|]; [|discriminate].
   exists l. apply andb_true_iff in H. destruct H as [H1 H2].
   apply Z.eqb_eq in H2. split; [reflexivity|]. split; [exact H1 | lia].
@@ -159,4 +165,35 @@ Theorem config_recreation_refuted :
             /\ config_recreate (DSeq l) = Err EValue.
 Proof.
   exists [0x1p-1; one]%float. repeat split; vm_compute; reflexivity.
+Qed.
+
+(** * Looking the final state up by its time (simresults.py) *)
+Theorem final_index_refuted :
+  exists T ts, 4 <= T <= Tmax
+               /\ set_evaluation_times one T EvFull = Ok ts
+               /\ final_index ts = Ok (Z.of_nat (length ts) - 2).
+Proof.
+  exists 9. eexists. split; [unfold Tmax; lia|]. split; vm_compute; reflexivity.
+Qed.
+
+Lemma final_index_minimal_sweep :
+  sweep (fun T =>
+           match set_evaluation_times one T EvMinimal with
+           | Ok ts => match final_index ts with
+                      | Ok k => k =? Z.of_nat (length ts) - 1
+                      | Err _ => false
+                      end
+           | Err _ => false
+           end) = true.
+Proof. vm_compute. reflexivity. Qed.
+
+Theorem final_index_minimal_ok : forall T, 4 <= T <= Tmax ->
+  exists ts, set_evaluation_times one T EvMinimal = Ok ts
+             /\ final_index ts = Ok (Z.of_nat (length ts) - 1).
+Proof.
+  intros T HT. pose proof (sweep_spec _ final_index_minimal_sweep T HT) as H. cbv beta in H.
+  destruct (set_evaluation_times one T EvMinimal) as [ts|]; [|discriminate].
+  exists ts. split; [reflexivity|].
+  destruct (final_index ts) as [k|]; [|discriminate].
+  apply Z.eqb_eq in H. subst. reflexivity.
 Qed.
